@@ -100,6 +100,9 @@ def _ledger_input(rel):
     return False
 
 
+_IN_USE = set()
+
+
 def cached(name, tier, seed, build):
     """Return the directory holding the result of `build(dir)`, computing it at most once per input state."""
     try:
@@ -109,14 +112,23 @@ def cached(name, tier, seed, build):
     key = "%s-%s-%s-%s" % (name, tier, seed, th)
     d = os.path.join(CACHE, key)
     done = os.path.join(d, "DONE")
+    if not os.environ.get("VERIF_NOCACHE") and os.path.exists(done):
+        try:
+            os.utime(d)     # an entry in use is a recent entry: the purge below never takes it
+        except OSError:
+            pass
+        _IN_USE.add(key)
     if os.environ.get("VERIF_NOCACHE") or not os.path.exists(done):
         os.makedirs(CACHE, exist_ok=True)
-        # drop stale entries (anything older than 6h or more than 40 entries)
+        # drop stale entries: older than 6h, or beyond the 60 most recent ones when older than 2h; never an
+        # entry this process was handed (a check may consult a first result after building a second one)
         try:
             ents = sorted((os.path.getmtime(os.path.join(CACHE, e)), e) for e in os.listdir(CACHE))
             now = time.time()
             for i, (mt, e) in enumerate(ents):
-                if now - mt > 6 * 3600 or len(ents) - i > 40:
+                if e in _IN_USE:
+                    continue
+                if now - mt > 6 * 3600 or (len(ents) - i > 60 and now - mt > 2 * 3600):
                     shutil.rmtree(os.path.join(CACHE, e), ignore_errors=True)
         except OSError:
             pass
@@ -127,6 +139,7 @@ def cached(name, tier, seed, build):
         open(os.path.join(tmp, "DONE"), "w").write("ok")
         shutil.rmtree(d, ignore_errors=True)
         os.rename(tmp, d)
+        _IN_USE.add(key)
     return d
 
 
